@@ -41,7 +41,12 @@ class Potential_Form_Builder(object):
         raise UnknownPotentialFormException(*e.args)
         
       params = pform_instance.parameters
-      pform = pform_factory(*params)
+      try:
+        pform = pform_factory(*params)
+      except ValueError as e:
+        # Parameter values the potential-form cannot be built from (e.g. as.buck4 with r_min outside r_detach..r_attach)
+        raise ConfigurationException("could not create potential form '{}' with parameters {}: {}".format(
+          pform_instance.potential_form, " ".join([str(p) for p in params]), e))
 
     if pform_instance.start:
       start = pform_instance.start.start
